@@ -328,20 +328,9 @@ class Driver:
         return self.finish(t, mt)
 
     def resolver(self, cls, undone, cur, pre):
-        """Model-side resolution for undo: (old=undone, committed=cur,
-        new=pre)."""
-        if cls not in RESOLVABLE or not self.caps.get('resolve'):
+        if not self.caps.get('resolve'):
             return None
-        def st_of(rec):
-            if isinstance(rec.data, tuple):     # resolved earlier in this
-                return rec.data[1]              # undo transaction
-            return objs.decode_record(rec.data)[1]
-        try:
-            merged = objs.merge_states(st_of(undone), st_of(cur),
-                                       st_of(pre))
-        except Exception:
-            return None
-        return ('resolved', objs.canon_state(merged), cls)
+        return model_resolver(cls, undone, cur, pre)
 
     def op_undo(self, op):
         st = self.st
@@ -860,6 +849,56 @@ class Driver:
             self.flag('file-vs-model', '%sparsed file differs from the model '
                       'at transaction #%d (file has %d, model %d)'
                       % (tag, n, len(hist), len(want)))
+
+
+def model_resolver(cls, undone, cur, pre):
+    """Model-side resolution for undo: (old=undone, committed=cur,
+    new=pre)."""
+    if cls not in RESOLVABLE:
+        return None
+
+    def st_of(rec):
+        if isinstance(rec.data, tuple):     # resolved earlier in this
+            return rec.data[1]              # undo transaction
+        return objs.decode_record(rec.data)[1]
+    try:
+        merged = objs.merge_states(st_of(undone), st_of(cur), st_of(pre))
+    except Exception:       # noqa: B902
+        return None
+    return ('resolved', objs.canon_state(merged), cls)
+
+
+def check_undo_records(plan, actual, flag):
+    """Compare the records an undo transaction wrote (`actual`: list of
+    (oid, data) in order) with the model's plan; returns the MRecs to put
+    into the model."""
+    mrecs = []
+    if [a[0] for a in actual] != [p[0] for p in plan]:
+        flag('undo-records', 'the undo transaction wrote records for %r, '
+             'the model planned %r' % ([a[0] for a in actual],
+                                       [p[0] for p in plan]))
+        return None
+    for (oid, kind, data, src, refs, cls, how), (aoid, adata) in zip(plan,
+                                                                     actual):
+        if kind == DATA and isinstance(data, tuple):
+            ok = False
+            try:
+                _, state = objs.decode_record(adata)
+                ok = objs.canon_state(state) == data[1]
+            except Exception:       # noqa: B902
+                ok = False
+            if not ok:
+                flag('undo-resolve', 'undo record of %r is not the three-way '
+                     'merge (undone, current, previous)' % (oid,))
+            refs = tuple(k[1] for k in _markers(data[1])
+                         if k[0] in ('oc', 'o'))
+            mrecs.append(MRec(oid, DATA, adata, None, refs, cls))
+        else:
+            if adata != data:
+                flag('undo-records', 'undo record of %r does not carry the '
+                     'planned state' % (oid,))
+            mrecs.append(MRec(oid, kind, data, src, refs or (), cls))
+    return mrecs
 
 
 def _ext(b):
